@@ -7,7 +7,8 @@
 // case line:  seq <id> <seg_size> <retention_ms> <op>;<op>;...
 //   a:<psize>:<term>:<off>:<ts>:<pay>:<len>   AppendAsync      A:...  Append
 //   s  Sync      t:<o>  TruncateLog      c  Clear      T:<now_ms>:<commit>  one trimmer round
-//   r  Close + reopen      f:<after>  forward read      F  forward read from max(FirstOffset()-1,-1)      b  reverse read
+//   r  Close + reopen      R  crash + reopen (the directory is copied as it is, no Close; the run goes on on the copy)
+//   f:<after>  forward read      F  forward read from max(FirstOffset()-1,-1)      b  reverse read
 // observable per op:  <out>@<FirstOffset>,<LastOffset>
 //   out = ok | err:<kind> | tr:<offset> | rd:<term.off.ts.pay>,...[!<kind>]
 package main
@@ -288,6 +289,7 @@ type runner struct {
 	cp     *commitProvider
 	clock  *time2.MockedClock
 	w      wal.Wal
+	mute   bool // crash mode: no crash points while the harness itself tears down an abandoned WAL
 }
 
 func (r *runner) open() error {
@@ -334,6 +336,26 @@ func (r *runner) do(o opT) (res implObs) {
 		}
 		res.out = errKind(r.open())
 		w = r.w
+	case 'R':
+		// what a kill -9 leaves: the directory as it is now (the mapped files are MAP_SHARED, the copy sees every
+		// appended byte), no Close, hence no index file for the current segment other than one written by an
+		// earlier clean Close.  The next lifetime runs on the copy.
+		newDir := strings.TrimSuffix(r.dir, "x")
+		if newDir == r.dir {
+			newDir = r.dir + "x"
+		}
+		os.RemoveAll(newDir)
+		_, err := copyDir(wal.VerifWalPath(r.dir, "v", r.shard), wal.VerifWalPath(newDir, "v", r.shard))
+		hx.Must(err)
+		r.mute = true
+		w.Close() // only to stop the goroutines of the abandoned WAL; what it writes goes to the abandoned directory
+		os.RemoveAll(r.dir)
+		r.mute = false
+		opts := *r.opts
+		opts.BaseWalDir = newDir
+		r.dir, r.opts = newDir, &opts
+		res.out = errKind(r.open())
+		w = r.w
 	case 'f':
 		rd, err := w.NewReader(o.o)
 		es, rdErr, openErr := drain(rd, err)
@@ -370,6 +392,8 @@ func (r *runner) do(o opT) (res implObs) {
 // watchdog period is the outcome "hang"; the rest of the sequence is not run.
 func runCase(c caseT, dir string, shard int64, line string) []implObs {
 	os.RemoveAll(dir)
+	os.RemoveAll(dir + "x")
+	defer os.RemoveAll(dir + "x")
 	h := fnv.New32a()
 	h.Write([]byte(line))
 	r := &runner{dir: dir, shard: shard, cp: &commitProvider{v: -1}, clock: &time2.MockedClock{},
@@ -569,7 +593,7 @@ func (s *specState) judge(c caseT, o opT, x implObs) (sig string, detail string)
 			}
 		}
 		s.first = f
-	case 'r':
+	case 'r', 'R':
 		if x.out != "ok" {
 			return "reopen:error", x.out
 		}
@@ -650,6 +674,8 @@ type gen struct {
 	term   int64
 	ts     uint64
 	mono   bool
+	// the next append must not fit what is left of the current segment (rollover as the first append of a lifetime)
+	forceRoll bool
 }
 
 func (g *gen) last() int64 {
@@ -703,6 +729,8 @@ func (g *gen) mkAppend(o int64, oversize bool) opT {
 	switch {
 	case oversize:
 		e.vlen = g.seg + r.Intn(20)
+	case g.forceRoll && g.fo > 0:
+		e.vlen = g.vlenFor(e, min(g.seg, room+1+r.Intn(6)))
 	case r.Chance(35): // aim at the boundary of the current segment: ends on it, one before, one after
 		e.vlen = g.vlenFor(e, room+hx.Pick(r, []int{0, 0, -1, 1, -2, 2}))
 	case r.Chance(15): // aim at filling a fresh segment exactly / almost
@@ -725,9 +753,10 @@ func (g *gen) mkAppend(o int64, oversize bool) opT {
 		}
 	}
 	k := byte('A')
-	if r.Chance(30) {
+	if r.Chance(30) && !g.forceRoll {
 		k = 'a'
 	}
+	g.forceRoll = false
 	return opT{kind: k, e: e}
 }
 
@@ -898,7 +927,51 @@ func genCase(r *hx.Rng, o *hx.Out) caseT {
 			}
 			c.ops = append(c.ops, opT{kind: 'T', now: now, commit: commit})
 		case p < 87:
-			c.ops = append(c.ops, opT{kind: 'r'})
+			// a new process lifetime: clean restart or crash; state left on disk by one lifetime (index files of the
+			// current segment, stale segments) is consumed by the next ones
+			if r.Chance(40) {
+				// chain: clean restart, a few small synced appends into the same segment (optionally a truncation),
+				// crash, and a first append that does not fit: the segment is finalised with nothing appended in between
+				c.ops = append(c.ops, opT{kind: 'r'})
+				g.synced = g.last()
+				o.Count("lifetimes:chain")
+				for k := 1 + r.Intn(3); k > 0 && len(g.offs) > 0; k-- {
+					e := ent{term: g.term, off: g.last() + 1, ts: g.ts, vlen: r.Intn(6)}
+					e.pay = r.U64() % maxID(e.vlen)
+					e.psize = psizeOf(e)
+					if e.psize+headerSize > seg {
+						break
+					}
+					op := opT{kind: 'A', e: e}
+					c.ops = append(c.ops, op)
+					g.note(op)
+				}
+				if r.Chance(30) && len(g.offs) > 1 {
+					t := g.last() - int64(1+r.Intn(2))
+					if t >= g.first {
+						c.ops = append(c.ops, opT{kind: 't', o: t})
+						g.truncateTo(t)
+						o.Count("lifetimes:truncate-before-crash")
+					}
+				}
+				c.ops = append(c.ops, opT{kind: hx.Pick(r, []byte{'R', 'R', 'R', 'r'})})
+				g.synced = g.last()
+				if len(g.offs) > 0 && r.Chance(75) {
+					g.forceRoll = true
+					op := g.mkAppend(g.last()+1, false)
+					c.ops = append(c.ops, op)
+					if op.e.psize+headerSize <= seg {
+						g.note(op)
+						o.Count("lifetimes:first-append-of-a-lifetime-rolls-over")
+					}
+				}
+				c.ops = append(c.ops, opT{kind: 'F'}, opT{kind: 'b'})
+				if r.Chance(40) {
+					c.ops = append(c.ops, opT{kind: hx.Pick(r, []byte{'r', 'R'})}, opT{kind: 'F'})
+				}
+				break
+			}
+			c.ops = append(c.ops, opT{kind: hx.Pick(r, []byte{'r', 'r', 'R'})})
 			g.synced = g.last()
 		case p < 94:
 			after := g.first - 1
@@ -1026,7 +1099,7 @@ func main() {
 			}
 			op := j.c.ops[i]
 			o.Count("op:" + map[byte]string{'a': "append-async", 'A': "append", 's': "sync", 't': "truncate", 'c': "clear",
-				'T': "trim", 'r': "reopen", 'f': "read-forward", 'F': "read-forward-all", 'b': "read-reverse"}[op.kind])
+				'T': "trim", 'r': "reopen", 'R': "crash-reopen", 'f': "read-forward", 'F': "read-forward-all", 'b': "read-reverse"}[op.kind])
 			before := s.first
 			sig, det := s.judge(j.c, op, x)
 			if op.kind == 'T' && sig == "" && s.first > before {
